@@ -22,6 +22,10 @@
 //	                 has no stanza for, and other keys of a type it has
 //	ssh-same-type    SSH identities against files for another key of the same
 //	                 type (fresh ssh-ed25519 pairs, fixed RSA keys)
+//	history          in one process, on the same bytes: legitimate decryptions
+//	                 (real identities) interleaved with disjoint lists — right,
+//	                 wrong, right (second object), wrong, alternating, with a
+//	                 successful decryption of a different file in between
 package main
 
 import (
@@ -63,6 +67,9 @@ func main() {
 	}
 
 	m := &monitor{r: r, capped: map[string]int{}, seenKey: map[string]bool{}}
+	// histories first, alone, on this goroutine (see history.go)
+	m.stageHistory()
+
 	var jobs []job
 	jobs = append(jobs, m.stageMix()...)
 	jobs = append(jobs, m.stageNearMissPub()...)
@@ -75,7 +82,7 @@ func main() {
 
 	// a run that did not reach the cases the property names is not "held"
 	for _, c := range []string{"nearmiss_pub_k255_same_point_confirmed", "nearmiss_secret_variants_kept", "nearmiss_secret_variants_dropped_same_public_key",
-		"passphrase_variants", "typed_error_checked", "no_reader_checked", "files_validated_by_reference"} {
+		"passphrase_variants", "typed_error_checked", "no_reader_checked", "files_validated_by_reference", "history_successful_decrypts", "history_subjects"} {
 		if r.Counter(c) == 0 {
 			r.Inconclusive("counter %s is zero: that part of the workload did not run", c)
 		}
